@@ -183,7 +183,62 @@ def pEv (toks : List String) : Option Ev :=
   | ["rtadv", dt] => some (.rtAdv (nat! dt))
   | _ => none
 
-def hOne (st : HandlerSt) (toks : List String) : HandlerSt × String :=
+/-! ### Simultaneously due request timers
+
+Two request timers armed in the same millisecond (queued requests released together, requests
+replayed together after a re-key) are due at the same instant.  Which of them the delay queue
+hands out first is decided inside tokio's timer wheel (every slot is a LIFO stack and every cascade to
+a lower level reverses it, so the order depends on how the deadline bits relate to the wheel's
+elapsed time when the entry was inserted).  Both orders are behaviours of the code; the model fixes
+the arming order.  The driver therefore lets time pass deadline by deadline and, whenever several
+calls share the earliest deadline, may serve that group in reversed arming order - guided by the
+reply the implementation gave for this step (passed behind `??`).  Whatever it picks is compared
+with the implementation as usual. -/
+
+/-- Reverses the arming order within the calls whose deadline is `d`. -/
+def reverseTies (s : HState) (d : Nat) : HState :=
+  let grp := s.active.filter (·.deadline == d)
+  let seqs := grp.map (·.tseq)
+  let pairs := seqs.zip seqs.reverse
+  { s with active := s.active.map fun cl =>
+      if cl.deadline == d then
+        match pairs.find? (·.1 == cl.tseq) with
+        | some (_, q) => { cl with tseq := q }
+        | none => cl
+      else cl }
+
+/-- Lets `dt` pass one deadline at a time; `bits` says for each group of simultaneously due calls
+met on the way whether it is served in reversed arming order.  Returns the number of such groups. -/
+def advSplit (cfg : Cfg) (target : Nat) : Nat → HState → List Bool → List Out → Nat → HState × List Out × Nat
+  | 0, s, _, acc, n => (s, acc, n)
+  | fuel + 1, s, bits, acc, n =>
+    match nextDue s target with
+    | none =>
+      let (s', o) := step cfg s (.adv (target - s.now))
+      (s', acc ++ o, n)
+    | some (d, _) =>
+      let grp := s.active.filter (·.deadline == d)
+      let tied := grp.length ≥ 2
+      let (flip, bits') := if tied then (bits.headD false, bits.drop 1) else (false, bits)
+      let s0 := if flip then reverseTies s d else s
+      let (s', o) := step cfg s0 (.adv (d - s0.now))
+      advSplit cfg target fuel s' bits' (acc ++ o) (if tied then n + 1 else n)
+
+def bitStrings : Nat → List (List Bool)
+  | 0 => [[]]
+  | n + 1 => (bitStrings n).flatMap fun b => [false :: b, true :: b]
+
+/-- Renders the outcome of one `hev` step (renaming, events before sends, exemption map). -/
+def renderStep (nd : NodeSt) (s' : HState) (outs0 : List Out) : NodeSt × String :=
+  let (nd1, outs) := outs0.foldl (fun (p : NodeSt × List Out) o =>
+    let (n', o') := outRename p.1 o; (n', p.2 ++ [o'])) ({ nd with st := s' }, [])
+  -- events and datagrams leave through two channels: events first, then sends
+  let isSend : Out → Bool := fun o => match o with | .send .. => true | _ => false
+  let outs := outs.filter (fun o => !isSend o) ++ outs.filter isSend
+  let o := if outs.isEmpty then "-" else " ".intercalate (outs.map sOut)
+  (nd1, s!"{o} ## {sExempt s'.exempt}")
+
+def hOne (st : HandlerSt) (toks : List String) (hint : Option String := none) : HandlerSt × String :=
   match toks with
   | ["hnew", node, localSeq, retries, timeout, ttl, cap, fn0, listen, u4, u6] =>
     let id := nat! node
@@ -199,15 +254,27 @@ def hOne (st : HandlerSt) (toks : List String) : HandlerSt × String :=
     match st.nodes.find? (·.1 == id), pEv rest with
     | some (_, nd), some ev0 =>
       let cfg := nd.cfg
-      let (s', outs0) := step cfg nd.st (evRename nd ev0)
-      let (nd1, outs) := outs0.foldl (fun (p : NodeSt × List Out) o =>
-        let (n', o') := outRename p.1 o; (n', p.2 ++ [o'])) ({ nd with st := s' }, [])
-      -- events and datagrams leave through two channels: events first, then sends
-      let isSend : Out → Bool := fun o => match o with | .send .. => true | _ => false
-      let outs := outs.filter (fun o => !isSend o) ++ outs.filter isSend
-      let o := if outs.isEmpty then "-" else " ".intercalate (outs.map sOut)
-      ({ nodes := st.nodes.map fun e => if e.1 == id then (id, nd1) else e },
-        s!"{o} ## {sExempt s'.exempt}")
+      let put := fun (nd1 : NodeSt) (r : String) =>
+        (({ nodes := st.nodes.map fun e => if e.1 == id then (id, nd1) else e } : HandlerSt), r)
+      match evRename nd ev0 with
+      | .adv dt =>
+        let target := nd.st.now + dt
+        -- arming order first; other orders only if simultaneously due calls were met
+        let (s0, o0, n) := advSplit cfg target 10000 nd.st [] [] 0
+        let (nd0, r0) := renderStep nd s0 o0
+        if n == 0 || hint == some r0 || hint == none then put nd0 r0 else
+        let cands := (bitStrings (min n 4)).filter (fun b => b.any (fun x => x))
+        let found := cands.findSome? fun b =>
+          let (s1, o1, _) := advSplit cfg target 10000 nd.st b [] 0
+          let (nd1, r1) := renderStep nd s1 o1
+          if hint == some r1 then some (nd1, r1) else none
+        match found with
+        | some (nd1, r1) => put nd1 r1
+        | none => put nd0 r0
+      | ev =>
+        let (s', outs0) := step cfg nd.st ev
+        let (nd1, r) := renderStep nd s' outs0
+        put nd1 r
     | _, _ => (st, "bad-op")
   | _ => (st, "bad-op")
 
@@ -217,15 +284,26 @@ def splitMulti (toks : List String) : List (List String) :=
     if t == ";;" then ([], p.2 ++ [p.1]) else (p.1 ++ [t], p.2)) ([], [])
   acc ++ [cur]
 
-def handlerStep (st : HandlerSt) (toks : List String) : HandlerSt × String :=
+/-- Ops may carry the implementation's reply behind `??` (only consulted for the order of
+simultaneously due timers, see above). -/
+def splitHint (toks : List String) : List String × Option (List String) :=
+  match toks.idxOf? "??" with
+  | some i => (toks.take i, some (toks.drop (i + 1)))
+  | none => (toks, none)
+
+def handlerStep (st : HandlerSt) (toks0 : List String) : HandlerSt × String :=
+  let (toks, hintToks) := splitHint toks0
   match toks with
   | "hmulti" :: rest =>
-    let (st', outs) := (splitMulti rest).foldl (fun (p : HandlerSt × List String) ts =>
-      if ts.isEmpty then p else
-      let (s, o) := hOne p.1 ts
-      (s, p.2 ++ [o])) (st, [])
+    let segs := (splitMulti rest).filter (!·.isEmpty)
+    let hints : List (Option String) := match hintToks with
+      | some h => (splitMulti h).map fun ts => some (" ".intercalate ts)
+      | none => []
+    let (st', outs, _) := segs.foldl (fun (p : HandlerSt × List String × Nat) ts =>
+      let (s, o) := hOne p.1 ts ((hints[p.2.2]?).join)
+      (s, p.2.1 ++ [o], p.2.2 + 1)) (st, [], 0)
     (st', if outs.isEmpty then "-" else " ;; ".intercalate outs)
   | "hnop" :: _ => (st, "-")
-  | _ => hOne st toks
+  | _ => hOne st toks (hintToks.map fun h => " ".intercalate h)
 
 end Discv5.Driver
